@@ -64,6 +64,17 @@ package names
 // ---- the parser ----
 // (sanyof, asciistr: see types/model/verif_contracts.go)
 //@ spec func slastindexany(s string, chars string) int
+// Ghost variables are integers, and a string value is represented by an integer id in govc: nmid / nmstr
+// are the identity on that id (they only change the static type, so that the argument of Parse can
+// be remembered in a ghost variable).
+//@ spec func nmid(s string) int = s
+//@ spec func nmstr(i int) string = i
+//@ spec func nmk(s string) int = slastindexany(s, "/:")
+//@ spec func nmhd(s string) string = s[0:nmk(s)]
+//@ spec func nmtl(s string) string = s[nmk(s)+1:len(s)]
+//@ spec func nmsl(x string) int = slastindexany(x, "/")
+//@ spec func nmhost(x string) string = ite(nmsl(x) >= 0, x[0:nmsl(x)], "")
+//@ spec func nmns(x string) string = ite(nmsl(x) >= 0, x[nmsl(x)+1:len(x)], x)
 
 // Byte-wise reading of LastIndexAny; stated only for ASCII `chars` (for other sets the
 // function works on runes).
@@ -86,6 +97,29 @@ package names
 //@ func Parse
 //@   ensures len(s) > MaxNameLength ==> result.h == "" && result.n == "" && result.m == "" && result.t == ""
 //@   ensures result.m == "" || forall j int :: 0 <= j && j < len(result.m) ==> result.m[j] != 47 && result.m[j] != 58
+// -- C13 strengthening (audit): Parse is the grammar  [[host "/"] namespace "/"] model [":" tag]  read
+// from the right. nmk(s) is the position of the last '/' or ':'. No separator: all of s is the
+// model. Last separator '/': no tag, the model follows it, namespace and host are split at the
+// last '/' of the rest. Last separator ':': the tag follows it, and the rest is read the same way
+// once more. (A rest that again ends in ":x" - "m:a:b" - is read further; such a string is not the
+// print of any accepted name, because an accepted model or tag contains no ':'; for it only the
+// separator-freeness clauses below are claimed.) Every printed fully qualified name falls under
+// post.6: these clauses are what the print/parse round trip and the agreement with
+// types/model.ParseNameBare rest on - a swapped pair of parts, a moved boundary or a normalised
+// part changes one of them.
+// (The loop overwrites the parameter s; in an invariant both `s` and `old(s)` name the loop's
+// current s. The argument is therefore remembered at entry in a ghost integer through the
+// injection nmid / its inverse nmstr; P0 below abbreviates nmstr(ghost_s0) = the argument.)
+//@   ghost-at entry : ghost_s0 := nmid(s)
+//@   loop 1 invariant n.h == "" && n.n == "" && n.m == ""
+//@   loop 1 invariant (s == nmstr(ghost_s0) && n.t == "") || (nmk(nmstr(ghost_s0)) >= 0 && nmstr(ghost_s0)[nmk(nmstr(ghost_s0))] == 58 && s == nmhd(nmstr(ghost_s0)) && n.t == nmtl(nmstr(ghost_s0))) || (nmk(nmstr(ghost_s0)) >= 0 && nmstr(ghost_s0)[nmk(nmstr(ghost_s0))] == 58 && nmk(nmhd(nmstr(ghost_s0))) >= 0 && nmhd(nmstr(ghost_s0))[nmk(nmhd(nmstr(ghost_s0)))] == 58)
+//@   loop 1 invariant n.t == "" || forall j int :: 0 <= j && j < len(n.t) ==> n.t[j] != 47 && n.t[j] != 58
+//@   ensures len(s) <= MaxNameLength && nmk(s) < 0 ==> result.m == s && result.t == "" && result.h == "" && result.n == ""
+//@   ensures len(s) <= MaxNameLength && nmk(s) >= 0 && s[nmk(s)] == 47 ==> result.m == nmtl(s) && result.t == "" && result.h == nmhost(nmhd(s)) && result.n == nmns(nmhd(s))
+//@   ensures len(s) <= MaxNameLength && nmk(s) >= 0 && s[nmk(s)] == 58 && nmk(nmhd(s)) < 0 ==> result.m == nmhd(s) && result.t == nmtl(s) && result.h == "" && result.n == ""
+//@   ensures len(s) <= MaxNameLength && nmk(s) >= 0 && s[nmk(s)] == 58 && nmk(nmhd(s)) >= 0 && nmhd(s)[nmk(nmhd(s))] == 47 ==> result.m == nmtl(nmhd(s)) && result.t == nmtl(s) && result.h == nmhost(nmhd(nmhd(s))) && result.n == nmns(nmhd(nmhd(s)))
+//@   ensures result.t == "" || forall j int :: 0 <= j && j < len(result.t) ==> result.t[j] != 47 && result.t[j] != 58
+//@   ensures forall j int :: 0 <= j && j < len(result.n) ==> result.n[j] != 47
 
 //@ func Merge
 //@   pure reads none
@@ -96,3 +130,15 @@ package names
 
 //@ func (Name).String
 //@   ensures result == namestr(n.h, n.n, n.m, n.t)
+
+// -- C13 strengthening (audit): extended-name splitting. The scheme is what precedes the FIRST "://",
+// the digest what follows the LAST '@' of the remainder, the name what lies between; nothing is
+// dropped, trimmed or rewritten. (The name is then handed to Parse and the validator, the digest to
+// blob.ParseDigest: a split that leaks a '@' into the digest, or cuts at the wrong "://", hands them
+// different strings than the caller wrote.)
+//@ spec func nmrest(s string) string = ite(sindex(s, "://") >= 0, s[sindex(s, "://")+3:len(s)], s)
+//@ func Split
+//@   ensures result.0 == ite(sindex(s, "://") >= 0, s[0:sindex(s, "://")], "")
+//@   ensures result.1 == ite(slastindex(nmrest(s), "@") >= 0, nmrest(s)[0:slastindex(nmrest(s), "@")], nmrest(s))
+//@   ensures result.2 == ite(slastindex(nmrest(s), "@") >= 0, nmrest(s)[slastindex(nmrest(s), "@")+1:len(nmrest(s))], "")
+//@   ensures forall j int :: 0 <= j && j < len(result.2) ==> result.2[j] != 64
